@@ -191,19 +191,23 @@ def sigLetter : Nat → Bytes
   | _ => [88]
 
 mutual
-def sigOf : IT → Option Bytes
+/-- the signature a parsed type stands for, the struct names resolved in `scope` -/
+def sigIn (scope : Bytes → Option Bytes) : IT → Option Bytes
   | .basic k => some (sigLetter k)
-  | .vec t => (sigOf t).map (fun s => [91] ++ s ++ [93])
-  | .map k v => match sigOf k, sigOf v with
+  | .vec t => (sigIn scope t).map (fun s => [91] ++ s ++ [93])
+  | .map k v => match sigIn scope k, sigIn scope v with
     | some a, some c => some ([123] ++ a ++ c ++ [125])
     | _, _ => none
-  | .tuple ts => (sigOfs ts).map (fun s => [40] ++ s ++ [41])
-  | .ref _ => none
-def sigOfs : List IT → Option Bytes
+  | .tuple ts => (sigIns scope ts).map (fun s => [40] ++ s ++ [41])
+  | .ref n => scope n
+def sigIns (scope : Bytes → Option Bytes) : List IT → Option Bytes
   | [] => some []
-  | t :: r => match sigOf t, sigOfs r with
+  | t :: r => match sigIn scope t, sigIns scope r with
     | some a, some c => some (a ++ c)
     | _, _ => none
 end
+
+/-- the parser as the harness drives it: deep enough for any text of that length -/
+def parseType (text : Bytes) : Option (IT × Bytes) := parseT (2 * text.length + 4) text
 
 end QiVerif.Idl
